@@ -1,0 +1,14 @@
+//go:build !verif
+// +build !verif
+
+package storage
+
+import (
+	pb "github.com/marekgalovic/anndb/protobuf"
+	"github.com/marekgalovic/anndb/storage/wal"
+	uuid "github.com/satori/go.uuid"
+)
+
+func verifWrapWAL(id uuid.UUID, w wal.WAL) wal.WAL { return w }
+
+func verifAfterPropose(p *partition, proposal *pb.PartitionChange) {}
